@@ -1,6 +1,7 @@
 package checks
 
 import (
+	"bytes"
 	"fmt"
 	"os"
 	"path/filepath"
@@ -226,6 +227,16 @@ func runFaultCase(c faultCase) *Violation {
 		if err := sb.Persist(bad); err == nil {
 			return violation(prop, "persist/uncreatable-path", "Persist to a path in a missing directory returned nil")
 		}
+		// fault-free once more after all the failures
+		p4 := drive.NewPath("c17pa")
+		defer os.Remove(p4)
+		if err := drive.Safe(func() error { return sb.Persist(p4) }); err != nil {
+			return violation(prop, "nofault/persist-error-after-faults", "a fault-free Persist after the failed ones failed: %v", err)
+		}
+		d4, _ := os.ReadFile(p4)
+		if !bytes.Equal(d4, data) {
+			return violation(prop, "nofault/after-faults-bytes", "a fault-free Persist after the failed ones wrote %d bytes that differ from the first fault-free run's %d bytes", len(d4), len(data))
+		}
 		return nil
 
 	case "merge":
@@ -345,6 +356,30 @@ func runFaultCase(c faultCase) *Violation {
 		bad := filepath.Join(drive.ScratchDir(), "no-such-dir", "m.zap")
 		if _, _, err := drive.Merge(segs, drops, bad, root.ChunkMode, nil, nil); err == nil {
 			return violation(prop, "merge/uncreatable-path", "Merge to a path in a missing directory returned nil")
+		}
+		// the same merge once more, fault-free, right after all the failed ones: whatever the
+		// failures left behind in the process must not show in a merge that reports success
+		p4 := drive.NewPath("c17ma")
+		defer os.Remove(p4)
+		var size4 uint64
+		if err := drive.Safe(func() error {
+			var e error
+			_, size4, e = drive.Merge(segs, drops, p4, root.ChunkMode, nil, nil)
+			return e
+		}); err != nil {
+			return violation(prop, "nofault/merge-error-after-faults", "a fault-free Merge after the failed ones failed: %v", err)
+		}
+		d4, _ := os.ReadFile(p4)
+		if uint64(len(d4)) != size4 {
+			return violation(prop, "nofault/size-after-faults", "a fault-free Merge after the failed ones reported %d bytes, its file has %d", size4, len(d4))
+		}
+		if v := checkFooter(prop, d4, want.Count, effMode(root.ChunkMode)); v != nil {
+			v.Signature = "nofault/after-faults-" + v.Signature
+			return v
+		}
+		if v := reopenAndCompare(prop, p4, want, opts); v != nil {
+			v.Signature = "nofault/after-faults-" + v.Signature
+			return v
 		}
 		return nil
 	}
